@@ -83,7 +83,7 @@ WITNESSES = {
         "TOP dig=I(m1/ocim/9/cfg/) mt=ocii tag=fbS1 subj= size=0",
         "CRASH store=dir k=1",
     ],
-    "F33-children-after-restart": [
+    "F34-children-after-restart": [
         "NEW",
         "MAN m4 subj= mt=ocim cfgmt=cfg at= ann= len=394",
         "MAN m5 subj=S2 mt=ocii cfgmt=none at= ann= len=401 kids=m4/ocim/394//",
@@ -205,10 +205,10 @@ def check_C17(o, tier):
         prof.cleanup()
         return
     if tier == "quick":
-        _run(o, prof, "gen", {"VERIF_SEED": o.seed, "VERIF_N": 3000}, "ingest-random")
+        _run(o, prof, "gen", {"VERIF_SEED": o.seed, "VERIF_N": 2000}, "ingest-random")
     else:
-        for k in range(4):
-            if not _run(o, prof, "gen", {"VERIF_SEED": o.seed + 7919 * k, "VERIF_N": 15000}, "ingest-random%d" % k):
+        for k in range(3):
+            if not _run(o, prof, "gen", {"VERIF_SEED": o.seed + 7919 * k, "VERIF_N": 12000}, "ingest-random%d" % k):
                 break
     o.cov["exhaustive"] = False
     prof.cleanup()
